@@ -23,6 +23,7 @@ PREFIXES = ["field_", "f"]
 PAIR_NAMES = ["name", "client", "client_query", "client_header", "VALUE_1", "value 1", "2", "-", "+ab", "ab!", "a b", "a_b", "a-b", "a.b", "aB", "AB", "Ab", "ab", "A_B", "a__b", "_ab", "ab_", "1a", "_1a", "a1", "A1", "ﬁ", "fi",
               "é", "É", "class", "Class", "class_", "list", "List", "self", "", "-", "_", "match", "type_", "type"]
 PAIR_NAMES = list(dict.fromkeys(PAIR_NAMES))        # a name listed twice would pair with itself (two identical names are one name, not a merge)
+RESERVED = ["client", "Client", "CLIENT", "url", "URL", "body", "Body", "$client", "client-"]
 CHAIN_NAMES = ["a_b", "aB", "a$B", "a-b", "a!B", "A_B", "a B", "a_B", "AB"]
 END2END = ["a²", "٣x", "x٣", "௰", "a௰", "ﱠ", "aﱠb", "·a", "a·", "℘", "ªb", "x́", "́x", "𝒳", "ǅ", "a‍b", "ß", "ſ", "İ", "ı",
            "a\ud800b", "\U000e0041", "Ⅷ", "a　b"]
@@ -40,6 +41,14 @@ def cases(tier):
     for name in END2END:
         for scope in SCOPES:
             yield {"labels": [f"name={name!r}", f"scope={scope}"], "payload": {"mode": "single", "name": name, "scope": scope, "prefix": "field_"}}
+    # (2b) COUNTS: the names the generated functions use for their own arguments, as the ONLY parameter, one of two, one of three
+    for name in RESERVED:
+        for scope in ("query", "header", "query-body", "query-pathitem"):
+            yield {"labels": [f"name={name!r}", f"scope={scope}", "reserved-alone"], "payload": {"mode": "single", "name": name, "scope": scope, "prefix": "field_"}}
+            for others in (["zq"], ["zq", "zr"]):
+                for pos in range(len(others) + 1):
+                    names_ = others[:pos] + [name] + others[pos:]
+                    yield {"labels": [f"names={names_!r}", f"scope={scope}", "reserved-among-others"], "payload": {"mode": "pair", "names": names_, "scope": scope, "prefix": "field_"}}
     # (3) pairs per scope
     names = PAIR_NAMES if tier == "thorough" else PAIR_NAMES[:35]
     for a, b in itertools.combinations(names, 2):
@@ -177,6 +186,9 @@ def _doc(scope, names):
     if scope in ("query", "header"):
         return gen.base_doc(None, paths={"/x": {"get": {"operationId": "theOp", "parameters": [
             {"name": n, "in": scope, "schema": {"type": "integer"}} for n in names], "responses": ok}}})
+    if scope == "query-body":          # the operation also has a request body (the generated functions take it as `body`)
+        return gen.base_doc(None, paths={"/x": {"post": {"operationId": "theOp", "parameters": [{"name": n, "in": "query", "schema": {"type": "integer"}} for n in names],
+                                                          "requestBody": {"required": True, "content": {"application/json": {"schema": {"type": "object", "properties": {"a": {"type": "string"}}}}}}, "responses": ok}}})
     if scope == "query-pathitem":      # one operation's parameters, the first declared by the operation, the others by its path item
         return gen.base_doc(None, paths={"/x": {"parameters": [{"name": n, "in": "query", "schema": {"type": "integer"}} for n in names[1:]],
                                                 "get": {"operationId": "theOp", "parameters": [{"name": names[0], "in": "query", "schema": {"type": "integer"}}], "responses": ok}}})
@@ -212,7 +224,7 @@ def _scope_names(scope, res):
                 return [st.target.id for st in node.body if isinstance(st, ast.AnnAssign) and isinstance(st.target, ast.Name)
                         and st.target.id != "additional_properties"]
         return []
-    if scope in ("query", "header", "query-pathitem"):
+    if scope in ("query", "header", "query-pathitem", "query-body"):
         if not res.endpoints:
             return None
         ep = res.endpoints[0]
@@ -222,7 +234,7 @@ def _scope_names(scope, res):
         mod = ast.parse(pkg[f])
         for node in mod.body:
             if isinstance(node, ast.FunctionDef) and node.name == "sync_detailed":
-                return [a.arg for a in node.args.args + node.args.kwonlyargs if a.arg != "client"]
+                return [a.arg for a in node.args.args + node.args.kwonlyargs if a.arg != "client" and not (scope == "query-body" and a.arg == "body")]
         return []
     if scope == "schema":
         files = [k[len("models/"):-3] for k in pkg if k.startswith("models/") and k.endswith(".py") and not k.endswith("__init__.py")]
